@@ -361,15 +361,28 @@ func (s *TranslateFile) replayEntries() error {
 	if err != nil {
 		return err
 	}
-	r := bytes.NewReader(s.data[:fi.Size()])
+	size := fi.Size()
+	r := bytes.NewReader(s.data[:size])
 
 	// Iterate over each entry and reapply.
 	for {
 		offset := s.n
 
 		var entry LogEntry
-		if n, err := entry.ReadFrom(r); err == io.EOF {
-			return nil
+		if n, err := entry.ReadFrom(r); err == io.EOF || err == io.ErrUnexpectedEOF {
+			if offset == size {
+				return nil
+			}
+			// The file ends inside an entry. Entries larger than the write
+			// buffer are appended with several writes, so a process killed
+			// between them leaves a partial (never acknowledged) entry at the
+			// tail. Drop it: otherwise new entries would be appended behind
+			// it, at offsets the index does not expect.
+			if end := offset + int64(uVarintSize(entry.Length)) + int64(entry.Length); entry.Length != 0 && end <= size {
+				return err // a complete entry that cannot be read: corruption
+			}
+			s.logger.Printf("translate file %s: dropping partial entry at offset %d (file size %d)", s.Path, offset, size)
+			return s.file.Truncate(offset)
 		} else if err != nil {
 			return err
 		} else {
